@@ -137,7 +137,30 @@ def _fuel_zero(repo):
     return {"zero": zero, "default": default}, lean
 
 
+_plugins_loaded = False
+
+
+def load_plugins():
+    """per-property extractor items live in lib/tables/*.py (each registers via @item)"""
+    global _plugins_loaded
+    if _plugins_loaded:
+        return
+    _plugins_loaded = True
+    import glob, importlib.util, sys
+    sys.modules.setdefault("extract_tables", sys.modules[__name__])
+    here = os.path.dirname(os.path.abspath(__file__))
+    for path in sorted(glob.glob(os.path.join(here, "tables", "*.py"))):
+        name = "tables_" + os.path.basename(path)[:-3]
+        spec = importlib.util.spec_from_file_location(name, path)
+        mod = importlib.util.module_from_spec(spec)
+        try:
+            spec.loader.exec_module(mod)
+        except Exception as e:  # a broken plugin breaks the tie of its items, not everything
+            ITEMS.append((f"PLUGIN_{name}", (lambda e=e: (lambda repo: (_ for _ in ()).throw(e)))()))
+
+
 def regenerate(repo, out_path):
+    load_plugins()
     items, missing, chunks = {}, {}, []
     for name, f in ITEMS:
         try:
